@@ -56,10 +56,25 @@ func site(lines []string) string {
 	return ""
 }
 
+// clean drops the module path and every type-argument list (nested brackets) from a function name.
 func clean(fn string) string {
 	fn = strings.TrimPrefix(fn, modp)
 	fn = strings.TrimLeft(fn, "/.")
-	return strings.ReplaceAll(fn, "[...]", "")
+	var b []byte
+	depth := 0
+	for i := 0; i < len(fn); i++ {
+		switch fn[i] {
+		case '[':
+			depth++
+		case ']':
+			depth--
+		default:
+			if depth == 0 {
+				b = append(b, fn[i])
+			}
+		}
+	}
+	return string(b)
 }
 
 func (r *raceWatch) newReports() []vrt.Violation {
